@@ -32,6 +32,13 @@ Definition DivisionIdentity_stmt := forall kthr sthr A B, 1 <= kthr ->
 (* S6: Bezout: gcd(F,S0,T0,A,B) returns F = S0*A + T0*B, for all A, B *)
 Definition Bezout_stmt := forall kthr sthr A B, 1 <= kthr ->
   let '(F, S0, T0) := gcdext D kthr sthr A B in peq F (add D (pmul S0 A) (pmul T0 B)).
+(* S8: the public add(R,P,Q) / sub(R,P,Q) (as repaired: ending in setdegree) return the specification's sum/difference,
+   in normal form when the operands are *)
+Definition AddSub_stmt := forall P Q,
+  peq (add_pub D P Q) (add D P Q) /\ peq (sub_pub D P Q) (sub D P Q) /\
+  (normal D P -> normal D Q -> normal D (add_pub D P Q) /\ normal D (sub_pub D P Q)).
+(* the entrywise add without the final setdegree (the code before the repair) does NOT keep normal forms *)
+Definition RawAddNormal_stmt := forall P Q, normal D P -> normal D Q -> normal D (add D P Q).
 (* S7: setdegree keeps the polynomial, returns a normal form, and the zero polynomial is recognised *)
 Definition Normal_stmt := forall P,
   peq (setdegree D P) P /\ normal D (setdegree D P) /\ (isZero D P = true <-> peq P []).
@@ -55,6 +62,11 @@ Proof.
   - pose proof (divmodin_identity D OK kthr sthr A B H) as E. destruct (divmodin D kthr sthr A B). exact E.
 Qed.
 Lemma Bezout_ok : Bezout_stmt D. Proof. exact (gcdext_bezout D OK). Qed.
+Lemma AddSub_ok : AddSub_stmt D.
+Proof.
+  intros P Q. split. apply (add_pub_peq D OK). split. apply eqv_peq. apply (sub_pub_eqv D OK).
+  intros HP HQ. split. apply (add_pub_normal D OK); assumption. apply (sub_pub_normal D OK); assumption.
+Qed.
 Lemma Normal_ok : Normal_stmt D.
 Proof.
   intros P. split. apply (setdegree_peq D OK). split. apply (setdegree_normal D OK). apply (isZero_spec D OK).
@@ -70,3 +82,11 @@ Proof.
 Qed.
 Example GF2_karatsuba_instance : KaraRange_stmt GF2Dom.
 Proof. exact (KaraRange_ok GF2Dom GF2_ok). Qed.
+Lemma RawAddNormal_refuted : ~ RawAddNormal_stmt GF2Dom.
+Proof.
+  intros H. specialize (H [true] [true]). destruct H as [H|H].
+  - right. cbn. discriminate.
+  - right. cbn. discriminate.
+  - discriminate.
+  - apply H. reflexivity.
+Qed.
